@@ -129,11 +129,14 @@ def keyschedGo (prekey : List Bits) : List Int → Nat → Except Err (List Bits
     let rest ← keyschedGo prekey rs (k + 4)
     pure (key :: rest)
 
+/-- `range(35,2,-1)` -/
+def keyschedRs : List Int :=
+  match Gen.Serpent.keyschedRange with
+  | [a, b, c] => Py.range a b c
+  | _ => []
+
 def keysched (prekey : List Bits) : Except Err (List Bits) := do
-  let rs := match Gen.Serpent.keyschedRange with
-    | [a, b, c] => Py.range a b c
-    | _ => []
-  let keys ← keyschedGo prekey rs 8
+  let keys ← keyschedGo prekey keyschedRs 8
   if keys.length ≠ 33 then throw "AssertionError"
   pure keys
 
@@ -153,13 +156,16 @@ def keyWords (K : Bits) : List Bits :=
   | [a, b, c] => (Py.range a b c).map fun p => K.sliceFast p.toNat (p.toNat + c)
   | _ => []
 
+/-- the bound of `for i in range(132)` -/
+def prekeyCount : Nat :=
+  match Gen.Serpent.prekeyRange with
+  | [n] => n
+  | _ => 0
+
 /-- `Serpent.__init__` for `K` already converted by `Bits(K,bitorder=1)` -/
 def init (K : Bits) : Except Err Cipher := do
   let K2 ← padKey K
-  let n := match Gen.Serpent.prekeyRange with
-    | [n] => n
-    | _ => 0
-  let prekey ← prekeyLoop (List.range n) (keyWords K2)
+  let prekey ← prekeyLoop (List.range prekeyCount) (keyWords K2)
   let keys ← keysched prekey
   pure ⟨keys⟩
 
